@@ -396,3 +396,146 @@ def gen_loops():
 if __name__ == '__main__':
     t, d = gen_loops()
     print(t['BudgetDefs'])
+
+
+# ------------------------------------------------------------------ the three evaluation sweeps
+CMP = {ast.Lt: '.lt', ast.LtE: '.le', ast.Gt: '.gt', ast.GtE: '.ge'}
+
+
+def _is_copy(v):
+    """-> (copied?, inner expression string)"""
+    if isinstance(v, ast.Call):
+        f = ast.unparse(v.func)
+        if f in ('copy.deepcopy', 'copy.copy', 'np.array', 'np.copy') and len(v.args) == 1 and not v.keywords:
+            return True, ast.unparse(v.args[0])
+        if isinstance(v.func, ast.Attribute) and v.func.attr == 'copy' and not v.args:
+            return True, ast.unparse(v.func.value)
+    return False, ast.unparse(v)
+
+
+def read_sweep(fn):
+    U = lambda why: f'{{ iter := .other, steps := [.unknown {lean_str(why)}], outside := 1 }}'
+    if fn is None:
+        return U('method missing')
+    stmts = body_of(fn)
+    stmts = [s for s in stmts if not (isinstance(s, ast.Expr) and isinstance(s.value, ast.Call) and ast.unparse(s.value.func).startswith('logger.'))]
+    loops = [s for s in stmts if isinstance(s, ast.For)]
+    if len(loops) != 1:
+        return U(f'{len(loops)} loops')
+    lp = loops[0]
+    outside = len(stmts) - 1 + len(lp.orelse)
+    it, tg = ast.unparse(lp.iter), ast.unparse(lp.target)
+    agent, idx, tree = 'agent', None, None
+    if it == 'space.agents' and isinstance(lp.target, ast.Name):
+        iter_, agent = '.agents', lp.target.id
+    elif it == 'enumerate(space.agents)' and isinstance(lp.target, ast.Tuple) and len(lp.target.elts) == 2 \
+            and all(isinstance(e, ast.Name) for e in lp.target.elts):
+        iter_, idx, agent = '.enumAgents', lp.target.elts[0].id, lp.target.elts[1].id
+    elif it == 'enumerate(zip(space.trees, space.agents))' and isinstance(lp.target, ast.Tuple) and len(lp.target.elts) == 2 \
+            and isinstance(lp.target.elts[0], ast.Name) and isinstance(lp.target.elts[1], ast.Tuple) and len(lp.target.elts[1].elts) == 2:
+        iter_, idx = '.enumTreesAgents', lp.target.elts[0].id
+        tree, agent = lp.target.elts[1].elts[0].id, lp.target.elts[1].elts[1].id
+    else:
+        return U('iteration ' + it[:40])
+    b = lambda v: 'true' if v else 'false'
+    steps = []
+    for st in body_of(lp):
+        if isinstance(st, ast.Expr) and isinstance(st.value, ast.Call) and ast.unparse(st.value.func).startswith('logger.'):
+            continue
+        u = ast.unparse(st)
+        if isinstance(st, ast.Expr) and u == f'{agent}.check_limits()':
+            steps.append('.clipAgent')
+            continue
+        if isinstance(st, ast.Assign) and len(st.targets) == 1:
+            t = ast.unparse(st.targets[0])
+            cp, inner = _is_copy(st.value)
+            if tree and t == f'{agent}.position' and inner == f'{tree}.position':
+                steps.append(f'(.posFromTree {b(cp)})')
+                continue
+            if ast.unparse(st.value) in (f'function.pointer({agent}.position)', f'function({agent}.position)'):
+                if t == f'{agent}.fit':
+                    steps.append('.evalToFit')
+                    continue
+                if t == 'fit' and isinstance(st.targets[0], ast.Name):
+                    steps.append('.evalToLocal')
+                    continue
+        if isinstance(st, ast.If) and not st.orelse and isinstance(st.test, ast.Compare) and len(st.test.ops) == 1 \
+                and type(st.test.ops[0]) in CMP:
+            l, r, op = ast.unparse(st.test.left), ast.unparse(st.test.comparators[0]), CMP[type(st.test.ops[0])]
+            body = [x for x in body_of(st) if not (isinstance(x, ast.Expr) and isinstance(x.value, ast.Call) and ast.unparse(x.value.func).startswith('logger.'))]
+            asg = {}
+            okb = all(isinstance(x, ast.Assign) and len(x.targets) == 1 for x in body)
+            if okb:
+                for x in body:
+                    asg[ast.unparse(x.targets[0])] = _is_copy(x.value)
+            if okb and l == 'fit' and r == f'{agent}.fit' and idx and set(asg) == {f'{agent}.fit', f'local_position[{idx}]'}:
+                fl = asg[f'{agent}.fit'][1] == 'fit'
+                cp, inner = asg[f'local_position[{idx}]']
+                # a slot assignment into an array copies the values
+                steps.append(f'(.pbest {op} {b(fl)} {b(inner == agent + ".position")})')
+                continue
+            if okb and l == f'{agent}.fit' and r == 'space.best_agent.fit' \
+                    and {'space.best_agent.position', 'space.best_agent.fit'} <= set(asg) <= {'space.best_agent.position', 'space.best_agent.fit', 'space.best_tree'}:
+                cp, inner = asg['space.best_agent.position']
+                src = '.agentPos' if inner == f'{agent}.position' else ('.localPos' if idx and inner == f'local_position[{idx}]' else '.other')
+                fa = asg['space.best_agent.fit'][1] == f'{agent}.fit'
+                tr = 'none'
+                if 'space.best_tree' in asg:
+                    tcp, tin = asg['space.best_tree']
+                    tr = f'(some {b(tcp and tin == tree)})'
+                steps.append(f'(.best {op} {src} {b(cp)} {b(fa)} {tr})')
+                continue
+        steps.append(f'(.unknown {lean_str(u[:60])})')
+    return f'{{ iter := {iter_}, steps := [' + ', '.join(steps) + f'], outside := {outside} }}'
+
+
+def extract_sweeps():
+    return [('genericSweep', read_sweep(find_method(f'{REPO}/opytimizer/core/optimizer.py', 'Optimizer', '_evaluate'))),
+            ('psoSweep', read_sweep(find_method(f'{REPO}/opytimizer/optimizers/pso.py', 'PSO', '_evaluate'))),
+            ('gpSweep', read_sweep(find_method(f'{REPO}/opytimizer/optimizers/gp.py', 'GP', '_evaluate')))]
+
+
+def sweep_overrides():
+    """which optimizer classes define `_evaluate` themselves (everyone else inherits a translated one)"""
+    out = []
+    classes = _classes()
+    for k, (c, bases) in sorted(classes.items()):
+        if any(isinstance(f, ast.FunctionDef) and f.name == '_evaluate' for f in c.body):
+            out.append(k)
+    return out
+
+
+_old_gen_loops3 = gen_loops
+
+
+def gen_loops():
+    texts, data = _old_gen_loops3()
+    sw = extract_sweeps()
+    ov = sweep_overrides()
+    D = ['-- GENERATED by harness/translate_loops.py from the three _evaluate methods. Do not edit.',
+         'import OpyVerif.Model.SweepProg', 'namespace Opy.Gen', 'open Opy', '']
+    for n, t in sw:
+        D.append(f'def {n} : SweepLoop := {t}')
+    D.append('/-- the classes that define `_evaluate` themselves -/')
+    D.append('def sweepOwners : List String := [' + ', '.join(lean_str(x) for x in ov) + ']')
+    D += ['', 'end Opy.Gen', '']
+    T = ['-- GENERATED by harness/translate_loops.py: obligations re-decided on every build. Do not edit.',
+         'import OpyVerif.Generated.SweepsDefs', 'namespace Opy.Gen', 'open Opy',
+         '/-- `Optimizer._evaluate` reads as the loop that `Proofs/SweepProg.genericSweep_is_machine_rule` proves to be the machine\'s sweep rule -/',
+         'theorem genericSweep_eq : genericSweep = Expected.genericSweep ∨ genericSweep = Expected.genericSweepLe := by decide +kernel',
+         '/-- `PSO._evaluate` reads as the loop proved to be the swarm sweep rule -/',
+         'theorem psoSweep_eq : psoSweep = Expected.psoSweep ∨ psoSweep = Expected.psoSweepLe := by decide +kernel',
+         '/-- `GP._evaluate` reads as the loop proved to be the sweep rule on clip(value(tree)) -/',
+         'theorem gpSweep_eq : gpSweep = Expected.gpSweep ∨ gpSweep = Expected.gpSweepLe := by decide +kernel',
+         '/-- no other optimizer overrides the sweep -/',
+         'theorem sweepOwners_eq : sweepOwners = ["GP", "Optimizer", "PSO"] := by decide',
+         'end Opy.Gen', '']
+    texts['SweepsDefs'] = '\n'.join(D)
+    texts['Sweeps'] = '\n'.join(T)
+    data['sweeps'] = sw
+    return texts, data
+
+
+if __name__ == '__main__':
+    t, d = gen_loops()
+    print(t['SweepsDefs'])
